@@ -1,4 +1,5 @@
 import VhostModel.SpecDrv.Valid
+import VhostModel.SpecDrv.Srv
 /-! Spec driver: evaluates the property's own rule on a scenario (and, for behavioural families, on
 the observation the implementation produced). Imports nothing generated from /repo. -/
 
@@ -6,6 +7,7 @@ def dispatch (line : String) : String :=
   let toks := (line.trimAscii.toString.splitOn " ").filter (· ≠ "")
   match toks with
   | "valid" :: _ => SpecDrv.Valid.run toks
+  | "srv" :: _ => SpecDrv.Srv.run toks
   | _ => "bad-family"
 
 partial def loop (h : IO.FS.Stream) (out : IO.FS.Stream) : IO Unit := do
